@@ -60,6 +60,8 @@ def run(ctx, col, tier):
     col.assumptions += ["premise of the property: each compartment is at least as long as both "
                         "end radii, hence sphere(parent) & sphere(child) lies inside their frustum"]
     from ..rules import fancyadd
+    from ..rules import memo
+    memo.run(ctx, col, ('swcgeom.analysis.volume', 'swcgeom.utils.volumetric_object', 'swcgeom.utils.solid_geometry'))
     col.guard(fancyadd.check, ctx, col, "R-ACCUM", (MOD, "swcgeom.utils.volumetric_object"))
     col.guard(anchored, ctx, col)
     col.guard(gate_and_terms, ctx, col)
